@@ -59,7 +59,10 @@ def cmd_confirm(name):
   tmp = tempfile.mkdtemp(prefix='seeded-', dir='/tmp')
   wt = os.path.join(tmp, 'wt')
   try:
-    r = sh(['git', '-C', REPO, 'worktree', 'add', '-q', '--detach', wt, 'HEAD'])
+    # (a change written for a tree that a later fix: commit altered is
+    # confirmed against that tree: meta.json 'applies_to')
+    rev = m.get('applies_to', 'HEAD')
+    r = sh(['git', '-C', REPO, 'worktree', 'add', '-q', '--detach', wt, rev])
     assert r.returncode == 0, r.stderr
     env = dict(os.environ, PYTHONPATH=wt, OMP_NUM_THREADS='1',
                OPENBLAS_NUM_THREADS='1')
@@ -99,7 +102,7 @@ def cmd_confirm(name):
     miss = still
     m['confirmed'] = {
         'baseline_tests_passing_only_on_retry_alone': retried,
-        'repo_head': sh(['git', '-C', REPO, 'rev-parse', '--short',
+        'repo_head': sh(['git', '-C', wt, 'rev-parse', '--short',
                          'HEAD']).stdout.strip(),
         'demo_without_patch': {'exit': r0.returncode,
                                'tail': r0.stdout.strip()[-300:]},
